@@ -253,15 +253,72 @@ update_selected = Contract(
     modifies=['selected'], raises_only=(), returns=SEL)
 
 
+# ---- composition lemmas (z3): what the writers' guarantee G does to a session that is NOT running
+#
+# update_selected needs AgreeUpTo(session mod-sequence) and "deferred expunges are gone" as preconditions.  Between two
+# synchronisations of a session any number of segments of other tasks run; each satisfies G (proved for every writer
+# above) and leaves the session's own objects alone (the mutators' frames contain the mailbox only).  The lemmas restate
+# AgreeUpTo / G over plain functions (M: uid -> stored?, has/rec: the live log record, H: highest, V / P: the view and its
+# deferred set, m: the session's mod-sequence) and show both preconditions stable under one such segment -- by induction
+# over the segments they hold at the next synchronisation.  The formulas mirror _agree_up_to, _deferred_are_gone and
+# g_clauses line by line (kept next to them on purpose).
+def _lemma_symbols():
+    B, I = z3.BoolSort(), z3.IntSort()
+    F_ = lambda n, r: z3.Function(n, I, r)
+    return dict(M=F_('M', B), M2=F_('M2', B), has=F_('has', B), has2=F_('has2', B), rec=F_('rec', I), rec2=F_('rec2', I),
+                V=F_('V', B), P=F_('P', B), H=z3.Int('H'), H2=z3.Int('H2'), m=z3.Int('m'),
+                mx=z3.Int('max_uid'), mx2=z3.Int('max_uid2'), u=z3.Int('u'))
+
+
+def _agree_formula(y, M, has, rec):
+    u, V, P, m = y['u'], y['V'], y['P'], y['m']
+    agrees = z3.And(z3.Implies(M(u), V(u)), z3.Implies(z3.And(V(u), z3.Not(M(u))), P(u)))
+    return z3.ForAll([u], z3.Implies(z3.Not(z3.And(has(u), rec(u) >= m)), agrees))
+
+
+def _g_formula(y):
+    u = y['u']
+    return z3.And(
+        y['H2'] >= y['H'],                                                                       # highest_monotone
+        z3.ForAll([u], z3.Implies(y['M2'](u) != y['M'](u), z3.And(y['has2'](u), y['rec2'](u) > y['H']))),   # presence_change_logged
+        z3.ForAll([u], z3.Implies(y['has'](u), z3.And(y['has2'](u), z3.Or(y['rec2'](u) == y['rec'](u),
+                                                                            y['rec2'](u) > y['H'])))))      # records_move_forward
+
+
+def lemma_agree_stable():
+    y = _lemma_symbols()
+    hyp = [_agree_formula(y, y['M'], y['has'], y['rec']), y['m'] <= y['H'], _g_formula(y)]
+    goal = z3.And(_agree_formula(y, y['M2'], y['has2'], y['rec2']), y['m'] <= y['H2'])
+    return hyp, goal
+
+
+def lemma_deferred_stable():
+    """a deferred expunge stays expunged: the uid was assigned once (<= _max_uid) and new keys lie above _max_uid (C04's
+    guarantee uids_grow, proved for the same writers)"""
+    y = _lemma_symbols()
+    u = y['u']
+    hyp = [z3.ForAll([u], z3.Implies(y['P'](u), z3.And(z3.Not(y['M'](u)), u <= y['mx']))),
+           y['mx2'] >= y['mx'],
+           z3.ForAll([u], z3.Implies(z3.And(y['M2'](u), z3.Not(y['M'](u))), u > y['mx']))]      # uids_grow
+    goal = z3.ForAll([u], z3.Implies(y['P'](u), z3.And(z3.Not(y['M2'](u)), u <= y['mx2'])))
+    return hyp, goal
+
+
+from pyvc.prop import Lemma  # noqa: E402
+
 PROPERTY = Property(
     'C02', 'Cross-session convergence: no lost, phantom or stuck updates',
     contracts=CONTRACTS + [update_selected, sel_add_updates, SELM.silence], registry=REG,
+    lemmas=[Lemma('C02/lemma/agree_up_to_is_stable_under_the_writers_guarantee', lemma_agree_stable),
+            Lemma('C02/lemma/deferred_expunges_stay_expunged', lemma_deferred_stable)],
     factories={'FSet': lambda name, attrs, ctx: frozenset()},      # Msg.flags_key (declared by contracts/selected.py) in replays
     bounded=_bounded(), level='other', design_ref='6 C02',
     trusted_base=['asyncio cooperative scheduling', 'model of Message.__init__/Message.copy',
                   'FlagOp.apply through its contract (proved under C10)',
                   'update_selected: the agreement of the uids without a newer log record (AgreeUpTo) between two '
-                  'synchronisations follows from the guarantee proved for every writer (composition on paper); flags of the '
+                  'synchronisations follows from the guarantee proved for every writer (two z3 lemmas over plain functions that '
+                  'mirror the clauses; that they mirror them is by inspection; the view of a session that has no mod-sequence '
+                  'yet is empty); flags of the '
                   'cached messages are not part of the agreement proved (uids only; for flags: SelectedMailbox.silence is proved '
                   'to suppress only keys computed from the synchronized flags, the rest is the bounded convergence run); the '
                   'wait_on branch is not under contract',
